@@ -96,6 +96,13 @@ func init() {
 			return (*stackage.Condition)(nil)
 		case 10:
 			return stackage.Condition{}
+		case 11:
+			// user types that merely EMBED a Stack (they inherit its methods, Traverse included, yet are no Stacks)
+			return EmbStack{stackage.And().Push("in0", "in1")}
+		case 12:
+			return &EmbStack{stackage.Or().Push("pin0", stackage.And().Push("deeper"))}
+		case 13:
+			return EmbCond{stackage.Cond("ek", stackage.Eq, stackage.And().Push("ce0"))}
 		}
 		return ACond{}
 	}
@@ -103,7 +110,7 @@ func init() {
 
 func c07Leaf(r *core.Rng) *LeafDesc {
 	if r.Chance(1, 7) {
-		return &LeafDesc{Tag: "odd", I: int64(r.Intn(11))}
+		return &LeafDesc{Tag: "odd", I: int64(r.Intn(14))}
 	}
 	return SimpleLeaf(r)
 }
@@ -293,6 +300,17 @@ func c07Run(c *core.Ctx, idx int) {
 				return
 			}
 			c.Count("trees.traversed-from-inside-a-push-policy")
+			// ... and a walk that is interrupted by another walk: the level's (accepting) validity closure is consulted
+			// in mid-Traverse and itself traverses an unrelated structure
+			other := stackage.And().Push("o0", "o1", stackage.Or().Push("oo0", "oo1", "oo2"))
+			lvl.SetValidityPolicy(func(...any) error { other.Traverse(2, 2); other.Traverse(2, 1, 0); return nil })
+			path = path[:0]
+			okNested := rec(3)
+			lvl.SetValidityPolicy(nil)
+			if !okNested {
+				return
+			}
+			c.Count("trees.walks-interrupted-by-another-walk")
 		}
 	}
 	if idx%3 == 0 {
